@@ -778,10 +778,14 @@ def _nonsplit_zero_width(c):
 
 
 def _dedup_lines(events):
+    """drop a line event that repeats the previous event of the SAME frame (events of called
+    frames may lie in between: `x = (f() or g(\n0,\n**x))`)"""
     out = []
+    last = {}
     for e in events:
-        if e[0] == "line" and out and out[-1] == e:
+        if e[0] == "line" and last.get(e[1]) == e:
             continue
+        last[e[1]] = e
         out.append(e)
     return out
 
